@@ -252,7 +252,8 @@ def graph_search(run, rnd, dates, n_pops, n_alt=5):
                     flow_inputs.setdefault(m.group("time_unit"), []).append((c, m.group("base_name"), m.group("aggregation") or ""))
             pairs = [(u, v) for u in flow_inputs for v in UNITS if v != u]
             ok, r1 = run.attempt("default targets", popgen.simulate, df, date)
-            for u, v in (rnd.sample(pairs, min(len(pairs), n_alt)) if ok else []):
+            # the first population of a date tries every (unit of the input, unit supplied) pair, the others a sample
+            for u, v in ((pairs if k == 0 else rnd.sample(pairs, min(len(pairs), n_alt))) if ok else []):
                 c, b, a = rnd.choice(flow_inputs[u])
                 c2 = f"{b}{v}{a}"
                 if c2 in df.columns:
